@@ -210,38 +210,6 @@ theorem written_block_is_mapped_in_every_range (s : GoNfsd.Model.BlockMap.S) (bl
   rw [GoNfsd.Model.BlockMap.lookup_eq_ptr]
   exact (GoNfsd.Model.BlockMap.bmap_ok s blks bn h hbn).hit hok
 
-theorem posOf_valid (bn : Nat) (hbn : bn < NDIRECT + NBLKBLK + NBLKBLK * NBLKBLK) :
-    (GoNfsd.Model.BlockMap.posOf bn).valid ∧ (GoNfsd.Model.BlockMap.posOf bn).isData := by
-  unfold GoNfsd.Model.BlockMap.posOf
-  by_cases h1 : bn < NDIRECT
-  · simp only [h1, if_true]; exact ⟨h1, trivial⟩
-  · by_cases h2 : bn - NDIRECT < NBLKBLK
-    · simp only [h1, h2, if_true, if_false]; exact ⟨h2, trivial⟩
-    · simp only [h1, h2, if_false]
-      refine ⟨⟨?_, ?_⟩, trivial⟩
-      · simp only [NDIRECT, NBLKBLK] at *; omega
-      · simp only [NBLKBLK]; omega
-
-/-- the file block a data position serves -/
-def bnOf : GoNfsd.Model.BlockMap.Pos → Nat
-  | .dir i => i
-  | .ileaf i => NDIRECT + i
-  | .dleaf j i => NDIRECT + NBLKBLK + (NBLKBLK * j + i)
-  | _ => 0
-
-theorem bnOf_posOf (bn : Nat) : bnOf (GoNfsd.Model.BlockMap.posOf bn) = bn := by
-  unfold GoNfsd.Model.BlockMap.posOf
-  by_cases h1 : bn < NDIRECT
-  · simp only [h1, if_true, bnOf]
-  · by_cases h2 : bn - NDIRECT < NBLKBLK
-    · simp only [h1, h2, if_true, if_false, bnOf]; omega
-    · simp only [h1, h2, if_false, bnOf]
-      have := Nat.div_add_mod (bn - NDIRECT - NBLKBLK) NBLKBLK
-      omega
-
-theorem posOf_inj (a b : Nat) (h : GoNfsd.Model.BlockMap.posOf a = GoNfsd.Model.BlockMap.posOf b) : a = b := by
-  rw [← bnOf_posOf a, ← bnOf_posOf b, h]
-
 /-- A WRITE to one block leaves every other block of the file where it is: mapping file block
     `bn` (allocating the data block and whatever index blocks are missing) changes the disk block
     of NO other file block — mapped blocks stay, holes stay holes — whether or not it succeeds. -/
@@ -251,7 +219,7 @@ theorem mapping_one_block_moves_no_other (s : GoNfsd.Model.BlockMap.S) (blks : L
     GoNfsd.Model.BlockMap.lookup (GoNfsd.Model.BlockMap.bmap s blks bn).1.st (GoNfsd.Model.BlockMap.bmap s blks bn).2.1 bn' =
       GoNfsd.Model.BlockMap.lookup s.st blks bn' := by
   rw [GoNfsd.Model.BlockMap.lookup_eq_ptr, GoNfsd.Model.BlockMap.lookup_eq_ptr]
-  obtain ⟨hv, hd⟩ := posOf_valid bn' hbn'
-  exact (GoNfsd.Model.BlockMap.bmap_ok s blks bn h hbn).frame _ hv hd (fun he => hne (posOf_inj _ _ he))
+  obtain ⟨hv, hd⟩ := GoNfsd.Model.BlockMap.posOf_valid bn' hbn'
+  exact (GoNfsd.Model.BlockMap.bmap_ok s blks bn h hbn).frame _ hv hd (fun he => hne (GoNfsd.Model.BlockMap.posOf_inj _ _ he))
 
 end GoNfsd.Props.C02
